@@ -6,7 +6,7 @@ CONSTANTS
   Datas <- QDatas
   Times <- QTimes
   RootOps = FALSE
-  MaxTreeDepth = 3
-  MaxNodes = 3
+  MaxTreeDepth = 2
+  MaxNodes = 4
 INVARIANTS TypeOK InvWF ModelProps
 CHECK_DEADLOCK FALSE
